@@ -1,20 +1,22 @@
 ---- MODULE FidelityHttpTrace ----
 (* Trace validation of an in-process MOSN (HTTP listeners) against FidelityHttp.
    Events (driver):
-     req{pair,method,uri,body,hdr,status,rbody}   the request the client wrote (acts as TraceReset)
-     seen{arrived,method,uri,bodyeq,hdreq,te}     what the recording upstream received (arrived = FALSE: nothing came)
+     req{pair,method,uri,body,hdr,status,rbody,retry}   the request the client wrote (acts as TraceReset)
+     seen{arrived,attempt,method,uri,bodylen,bodyeq,hdreq}   what the recording upstream received, one event per attempt
+                                                  (arrived = FALSE: nothing came)
      resp{ok,status,bodyeq,hdreq}                 what the client received back *)
 EXTENDS FidelityHttp, VTrace
 
 tvars == <<vars, l>>
-TraceInit == l = 1 /\ phase = "idle" /\ seen = [uri |-> "", method |-> ""]
-             /\ req = [uri |-> "", method |-> ""]
+TraceInit == l = 1 /\ phase = "idle" /\ seen = <<>>
+             /\ req = [uri |-> "", method |-> "", body |-> 0]
 
 TReq == /\ IsEvent("req")
-        /\ req' = [uri |-> Ev.uri, method |-> Ev.method] /\ phase' = "send" /\ seen' = [uri |-> "", method |-> ""]
+        /\ req' = [uri |-> Ev.uri, method |-> Ev.method, body |-> Ev.body] /\ phase' = "send" /\ seen' = <<>>
 
-TSeen == /\ IsEvent("seen") /\ phase = "send"
-         /\ phase' = "seen" /\ seen' = [uri |-> Ev.uri, method |-> Ev.method] /\ UNCHANGED req
+(* one event per upstream attempt (a retried request is seen more than once; every attempt must be faithful) *)
+TSeen == /\ IsEvent("seen") /\ phase \in {"send", "seen"}
+         /\ phase' = "seen" /\ seen' = Append(seen, [uri |-> Ev.uri, method |-> Ev.method, body |-> Ev.bodylen]) /\ UNCHANGED req
          /\ Expect(Ev.arrived, "request-not-forwarded")
          /\ Expect(~Ev.arrived \/ Ev.method = req.method, "method-changed")
          /\ Expect(~Ev.arrived \/ Ev.uri = req.uri, "request-uri-changed")
